@@ -25,7 +25,7 @@ RULE = (
     "panel, parse_source AST equality and generated-text equality; W5 every thread builds its own revisions of one "
     "experiment name (unique labels per construction); W2 concurrent calls on shared evaluators; W3 one "
     "evaluator toggled between texts A and B by a recompiler while callers evaluate (result must be A(x) or B(x)); W4 "
-    "failing recompiles racing with calls (callers keep seeing A); W6 all of it at once; W7 staggered constructions of a 1500-rung else-if ladder (outcome class compared); W8 cold start: fresh interpreters whose first-ever constructions happen in 2..16 threads released together (W3 alternates between a same-name and an other-name revision). distinct_nontrivial = distinct (run, thread, op) "
+    "failing recompiles racing with calls (callers keep seeing A); W6 all of it at once; W7 staggered constructions of a 1500-rung else-if ladder (outcome class compared); W9 (escalation, only when a concurrent run leaves sys.getrecursionlimit() changed): staggered constructions of 1600-rung ladders with the limit reset every round; W8 cold start: fresh interpreters whose first-ever constructions happen in 2..16 threads released together (W3 alternates between a same-name and an other-name revision). distinct_nontrivial = distinct (run, thread, op) "
     "results produced by worker threads that were released together by a barrier and ran concurrently (evidence of real "
     "overlap is reported separately: threads simultaneously inside parse_source, cross-thread switches between line events)."
 )
@@ -242,6 +242,69 @@ def cold_start(ctx, ref):
         shutil.rmtree(tmp, ignore_errors=True)
 
 
+def deep_ladder(variant, rungs=1600, bulk=1_000_000):
+    arms = "\n".join(f'{"if" if k == 0 else "else if"} x=={k}{{return {k + variant} weighted 1}}' for k in range(rungs))
+    return (f"def ladder_{variant} {{ splitters: uid /* ladder {variant}\n if x == 0 {{ return 'never' weighted 1 }} */\n{arms}\n"
+            f"else {{ return '{'b' * bulk}{variant}' weighted 1, 'floor' weighted 1 }} }}")
+
+
+def deep_ladder_rounds(ctx, im, base_limit, rounds):
+    """W9 (escalation): run only after a concurrent run left sys.getrecursionlimit() different from what the sequential
+    reference left - i.e. something saves / changes / restores the interpreter-wide limit without synchronisation.  The
+    harmful order is: the thread that saved the low value leaves first while another is still deep in a traversal.  Two
+    constructions of >1000-rung ladders, the second staggered by a fraction of one construction, limit reset every round."""
+    def outcome(text):
+        c = im.construct(text)
+        if c[0] != "ok":
+            return ("construction raised", c[1])
+        return ("built", [im.call(c[1], dict(uid=u, x=x)) for x in (0, 131, 1599, 1600, -1) for u in ("a", 3)])
+
+    texts = [deep_ladder(0), deep_ladder(1)]
+    sys.setrecursionlimit(base_limit)
+    want, secs = [], []
+    for t in texts:
+        t0 = time.time()
+        want.append(outcome(t))
+        secs.append(time.time() - t0)
+        sys.setrecursionlimit(base_limit)
+    one = min(secs)
+    stagger = (0.3, 0.4, 0.2, 0.5, 0.35, 0.25, 0.45, 0.15, 0.55)
+    for r in range(rounds):
+        sys.setrecursionlimit(base_limit)
+        sys.setswitchinterval(1e-4)
+        got = [None, None]
+        barrier = threading.Barrier(2)
+
+        def worker(which, delay):
+            barrier.wait()
+            time.sleep(delay)
+            got[which] = outcome(texts[which])
+
+        first = r % 2
+        ths = [threading.Thread(target=worker, args=(first, 0.0), daemon=True),
+               threading.Thread(target=worker, args=(1 - first, stagger[r % len(stagger)] * one), daemon=True)]
+        for t in ths:
+            t.start()
+        for t in ths:
+            t.join(300)
+        ctx.count("runs/W9-deep-ladder-escalation")
+        for which in (0, 1):
+            ctx.evaluated()
+            if got[which] is None:
+                ctx.set_inconclusive("W9 watchdog fired")
+                return
+            if got[which] != want[which]:
+                def short(o):
+                    return [o[0], o[1] if o[0] != "built" else str(o[1][:2])[:120]]
+                ctx.violation("differs-from-sequential", dict(workload="W9 two staggered constructions of 1600-rung ladders", round=r,
+                                                              kind="huge-construction", alone=short(want[which]), concurrently=short(got[which]),
+                                                              recursion_limit_baseline=base_limit),
+                              mechanism="C17/differs-from-sequential")
+                return
+    sys.setrecursionlimit(base_limit)
+    sys.setswitchinterval(1e-6)
+
+
 def run(ctx):
     im = impl()
     rnd = ctx.rnd
@@ -253,6 +316,8 @@ def run(ctx):
     if ctx.nviolations:
         return
     old_interval = sys.getswitchinterval()
+    base_limit = sys.getrecursionlimit()  # what the sequential reference run left behind
+    limit_changed = 0
     sys.setswitchinterval(1e-6)
     inter = Interleaver()
     nruns = ctx.n(24, 14 * 48)
@@ -270,6 +335,7 @@ def run(ctx):
             logs = [[] for _ in range(nthreads)]
             errors = [[] for _ in range(nthreads)]
             seed = rnd.getrandbits(32)
+            sys.setrecursionlimit(base_limit)
             with ParseOverlap(im) as ov:
                 if inject:
                     inter.start(p=0.125, seed=seed)
@@ -466,6 +532,14 @@ def run(ctx):
                 ctx.count("parse_source/calls-overlapping-another-thread", ov.overlapped_calls)
                 cur = ctx.notes.get("max_threads_simultaneously_in_parse_source", 0)
                 ctx.note("max_threads_simultaneously_in_parse_source", max(cur, ov.max_inside))
+            if finished and sys.getrecursionlimit() != base_limit:
+                # interpreter-wide state that sequential use leaves alone was left changed by a concurrent run
+                limit_changed += 1
+                ctx.count("interpreter-state/recursion-limit-left-changed-by-a-concurrent-run")
+                if limit_changed == 1:
+                    deep_ladder_rounds(ctx, im, base_limit, 9 if ctx.quick() else 40)
+                    if ctx.nviolations:
+                        break
             if not finished:
                 ctx.set_inconclusive(f"run {run_i} ({workload}, {nthreads} threads) watchdog fired: threads still alive")
                 break
@@ -496,6 +570,7 @@ def run(ctx):
     finally:
         inter.stop()
         sys.setswitchinterval(old_interval)
+        sys.setrecursionlimit(base_limit)
     ctx.count("line-events", inter.events)
     ctx.count("cross-thread-switches-between-line-events", inter.switches)
     sig = inter.sig
